@@ -96,7 +96,8 @@ CHECKS = {
         "Documented leniencies are named predicates; the enum-metaclass protocol hole and six protocol deviations (poisoned "
         "positive cache, five Any / rescue leniencies) are named known deviations, excused only where the model reproduces the "
         "real verdict."
-        " Unions of same-type literals (function literals, class literals, two instances of one class, scalars) in every order are offered to Callable types, __call__ / data-member protocols and every expected kind (UnionLeft).",
+        " Unions of same-type literals (function literals, class literals, two instances of one class, scalars) in every order are offered to Callable types, __call__ / data-member protocols and every expected kind (UnionLeft)."
+        " User generic classes with every arrangement of the Generic[...] base and permuted parameter orders (GenericBases.tla, 1067 states exhaustive, 2080 real pairs) check generic-base substitution against __orig_bases__ / __parameters__ and witness objects.",
         design="2/C04",
         note=TRUSTED + " Leniencies excluded from Sound are listed in DESIGN.md (bare generics, fixed<-variadic tuple, NewType<-supertype); class objects (type[K], KnownValue(K)) against protocols and the "
         "permissive __hash__ rule are outside the protocol slice.",
@@ -216,7 +217,8 @@ CHECKS = {
         "states, all 1.7k bodies replayed) plus slices loopcont (179k states, 5.9k bodies), finally (254k, 720), binders (138k, "
         "3k sampled), inner (19k, 900), match (751k, 1.5k), nested5, closure4, loopexit7; thorough: 5 / 3 / 2 variables (9.6M "
         "states) and 6 / 3 / 1 variable (87M); twelve named deviation classes, each excusing only reports the model reproduces "
-        "exactly.",
+        "exactly."
+        " While tests over locals bound to non-empty / empty lists, tuples and int literals (whiletest slice, 526k states) distinguish always-entered, never-entered and ordinary loops.",
         design="2/C09",
         note=TRUSTED + " Dead code (statements after return/raise/break/continue in the same block) is outside the grammar "
         "(pyanalyze deliberately analyses it as fall-through); nested functions with nonlocal are generated as one-statement closures called after a dominating definition (ScopeGen.closure*.cfg); `global` is not generated (module variables are flow-insensitive by design); loop-exit bodies with break under try / suppressing with form their own slice (ScopeGen.loopexit.cfg); in the newer slices "
@@ -363,7 +365,8 @@ CHECKS = {
         "replacement fixes as post-conditions (parses, proposing diagnostic gone, AST = intended program, loop clean) and as "
         "text operations over fix kind x 24 statement layouts x 9 blocks x 8 lines-before x 12 lines-after x 3 end-of-file "
         "positions (87k states quick / 200k thorough; 3.7k / 99k files through the real fixer)."
-        " Part D (FixShapes.tla): the fix producers' decisions over statement / literal / call shapes (assignment targets x walrus x value purity; 70 named shapes for missing_f, use_fstrings, too_many_positional_args, unused_ignore) with Ref = the applied replacement is the intended change only, judged by executing the function before and after the fix.",
+        " Part D (FixShapes.tla): the fix producers' decisions over statement / literal / call shapes (assignment targets x walrus x value purity; 70 named shapes for missing_f, use_fstrings, too_many_positional_args, unused_ignore) with Ref = the applied replacement is the intended change only, judged by executing the function before and after the fix."
+        " use_fstrings rewrites are enumerated over flag x width x precision x conversion (360 cases) and executed before / after on values that expose each field.",
         design="2/C16",
         note=TRUSTED + " Replacement fixes (missing_f, use_fstrings, unused_variable, too_many_positional_args, unused_ignore) are covered by part B (FixReplace.tla / FixReplaceTrace.tla, c16b.py) with post-conditions only: parses, proposing diagnostic gone, AST delta within the allowed set; the decompiler's text fidelity is outside what TLA+ decides (comments inside the rewritten statement are lost by design and not counted). 8 open findings in the line-range / insertion code (proposed/C16-fix-1..3.diff); asynq multi-statement rewrites (missing_asynq, duplicate / unnecessary yield) are not realised.",
     ),
@@ -404,7 +407,8 @@ CHECKS = {
         "observations quick) are replayed through the real options code with TLC judging every result (CommandLineValueWins, "
         "LayeringFollowsDocs, MalformedRejected); the real command-line instances are compared with the model even when a lower "
         "layer masks the value."
-        " The Options object is state with a Lookup action: histories of <=3 lookups on one real Options (and one program run over several files) must each follow the documented precedence and leave the stored instances unchanged.",
+        " The Options object is state with a Lookup action: histories of <=3 lookups on one real Options (and one program run over several files) must each follow the documented precedence and leave the stored instances unchanged."
+        " extend_config references carry a spelling dimension (same dir, ./, ../dir/, absolute, redundant components, symlink) for acyclic chains and for cycles of length 1-3, which must raise InvalidConfigOption.",
         design="2/C18",
         note=TRUSTED + " Seven real options stand for six option kinds; Options.display is replaced by a recorder in-process; path lists are "
         "first-statement-wins (PathSequenceOption is not a ConcatenatedOption); files=[] means no file was named; a command line "
